@@ -107,6 +107,15 @@ def find_aliases(raw):
         es = by_shape_e.get(shape, [])
         if len(ms) == 1 and len(es) == 1 and shape[2] >= 1:
             out[es[0]] = ms[0]
+    # the same across a change of arity (loose parameters gathered into a carrier whose method the helper became): the one
+    # function of that return type that left the file and the one that entered it call exactly the same things (>= 2 calls)
+    left_m = {m: f for m, f in left_m.items() if m not in out.values()}
+    left_e = {e: f for e, f in left_e.items() if e not in out}
+    for m, fm in left_m.items():
+        es = [e for e, fe in left_e.items() if fe['file'] == fm['file'] and fe['ret'] == fm['ret']]
+        ms = [m2 for m2, f2 in left_m.items() if f2['file'] == fm['file'] and f2['ret'] == fm['ret']]
+        if len(es) == 1 and len(ms) == 1 and sum(fm['callees'].values()) >= 2 and _sim(fm['callees'], left_e[es[0]]['callees']) >= 0.99:
+            out[es[0]] = m
     return out
 
 
@@ -159,6 +168,9 @@ def rename_fields(raw, fa):
         if isinstance(o, dict):
             if 'f' in o and 'n' in o and 'adt' in o and (o['adt'], str(o['f'])) in fa:
                 o['n'] = fa[(o['adt'], str(o['f']))]
+            if o.get('a') == 'adt' and isinstance(o.get('fields'), list) and o.get('vidx', 0) == 0:
+                # struct literals name their fields too
+                o['fields'] = [fa.get((o.get('adt'), str(i)), n) for i, n in enumerate(o['fields'])]
             for v in o.values():
                 walk(v)
         elif isinstance(o, list):
